@@ -4,6 +4,8 @@ mod explore;
 mod families;
 mod faults;
 mod interp;
+mod menu;
+mod menuchecks;
 mod report;
 mod rt;
 mod seq;
@@ -19,6 +21,9 @@ fn main() {
 	let tier = report::tier_from_args(&args);
 	match cmd {
 		"C01" | "C02" | "C05" => conc::check_core(cmd, &tier),
+		"C03" => menuchecks::check_c03(&tier),
+		"C10" => menuchecks::check_c10(&tier),
+		"C06" => menuchecks::check_c06(&tier),
 		"C04" => seqchecks::check_c04(&tier),
 		"C07" => seqchecks::check_c07(&tier),
 		"C08" => seqchecks::check_c08(&tier),
